@@ -36,6 +36,14 @@ template<typename S> static void euler_case(S roll, S pitch, S yaw, S tol)
     if (angdiff(bq[0], roll) > tol || angdiff(bq[1], pitch) > tol || angdiff(bq[2], yaw) > tol) FAIL("angles (%g,%g,%g) -> quaternion (scaled by %g) -> angles gives (%g,%g,%g)", (double)roll, (double)pitch, (double)yaw, (double)sc, (double)bq[0], (double)bq[1], (double)bq[2]);
   }
   if (std::is_same<S, double>::value) {
+    // re-initialisation of a used object, including angles that are exactly zero or unchanged
+    static SmartRotation3D reused(0.3, 0.2, 0.5);
+    for (int variant = 0; variant < 4; ++variant) {
+      double a0 = variant == 1 ? 0.0 : (double)roll, a1 = variant == 2 ? 0.0 : (double)pitch, a2 = variant == 3 ? 0.0 : (double)yaw;
+      reused.init(a0, a1, a2);
+      Eigen::Matrix3d want = eulerAnglesToRotation3D(Eigen::Vector3d(a0, a1, a2));
+      if ((reused.R() - want).norm() > tol) FAIL("SmartRotation3D re-initialised with init(%g,%g,%g): R() differs from eulerAnglesToRotation3D by %g", a0, a1, a2, (reused.R() - want).norm());
+    }
     SmartRotation3D sr(roll, pitch, yaw);
     if ((sr.R() - R.template cast<double>()).norm() > tol) FAIL("SmartRotation3D(%g,%g,%g).R() differs from eulerAnglesToRotation3D by %g", (double)roll, (double)pitch, (double)yaw, (sr.R() - R.template cast<double>()).norm());
   }
